@@ -36,6 +36,17 @@
 //! instants `poll_at()` returns; probes before/after are judged by R1 against a validity
 //! computed from the advertisements, not from `iface.ip_addrs()`.
 //!
+//! Listener histories (addr/hist.rs): `listen((A1, 80))` on a two-address interface, every event
+//! sequence up to length 3 (quick) / 4 (thorough) over {SYN/RST/ACK/data to A1 or A2, FIN, abort +
+//! listen again}; after every frame R2 is judged against the endpoint the APPLICATION bound (the
+//! single-packet table judges against what the socket reports, which a socket that forgot its
+//! address binding would satisfy).
+//!
+//! 6LoWPAN address contexts (addr/ctx.rs): 802.15.4 frames with the CID extension and
+//! context-compressed destination/source, every (SCI, DCI), with checksum-equivalent prefixes and
+//! with receive checksum verification off, so that a wrong expansion cannot hide behind the
+//! transport checksum; destinations denoting a foreign address are judged by R1.
+//!
 //! Lenient readings (the statement leaves room; the oracle demands no more than is written):
 //!  * an 802.15.4 data frame without any destination addressing is, per IEEE 802.15.4, for the
 //!    coordinator of its SOURCE PAN: with a foreign source PAN it is "for another PAN" (R1); with
@@ -67,6 +78,8 @@
 
 #[macro_use]
 mod model;
+mod ctx;
+mod hist;
 mod pkt;
 mod timed;
 mod world;
@@ -1222,11 +1235,15 @@ pub fn run(tier: Tier) -> i32 {
 
     // timed part: SLAAC address validity over time (see addr/timed.rs)
     let tt = timed::run(&mut rep, tier);
+    // short histories for address-bound TCP listeners (see addr/hist.rs)
+    let ht = hist::run(&mut rep, tier);
+    // 802.15.4 frames with context-based address compression (see addr/ctx.rs)
+    let ct = ctx::run(&mut rep);
 
     rep.add_count("states", agg.distinct.len() as u64);
-    rep.add_count("transitions", agg.frames_in + tt.frames_in);
-    rep.add_count("evaluations", agg.cells + tt.runs);
-    rep.add_count("traces_validated_against_impl", agg.validated + tt.validated);
+    rep.add_count("transitions", agg.frames_in + tt.frames_in + ht.frames_in + ct.runs);
+    rep.add_count("evaluations", agg.cells + tt.runs + ht.runs + ct.runs);
+    rep.add_count("traces_validated_against_impl", agg.validated + tt.validated + ht.validated + ct.validated);
     rep.add_count("distinct_nontrivial", agg.obs_distinct.len() as u64);
     rep.cov("cells_executed", json!(agg.cells));
     rep.cov("cells_per_medium_version", json!(agg.per_med));
@@ -1255,6 +1272,12 @@ pub fn run(tier: Tier) -> i32 {
 pub fn replay(art: &Value) -> i32 {
     if art["replay"]["type"].as_str() == Some("slaac") {
         return timed::replay(&art["replay"], art["signature"].as_str().unwrap_or(""));
+    }
+    if art["replay"]["type"].as_str() == Some("history") {
+        return hist::replay(&art["replay"], art["signature"].as_str().unwrap_or(""));
+    }
+    if art["replay"]["type"].as_str() == Some("lowpan-context") {
+        return ctx::replay(&art["replay"], art["signature"].as_str().unwrap_or(""));
     }
     let Some(c) = art["replay"].get("cell").and_then(Cell::from_json) else {
         eprintln!("MACHINERY ERROR: artefact has no replayable cell");
